@@ -143,7 +143,8 @@ def gen_unit_cases(rng, budget):
         keep = xs.copy()
         e = gl._zero_small_elements(xs, eps)
         assert np.array_equal(xs, keep, equal_nan=True)
-        out["zero_small"].append(("(%s, %s, %s)" % (c_float(eps), fl(xs), fl(e)), {"eps": float(eps)}))
+        out["zero_small"].append(("(%s, %s, %s)" % (c_float(eps), fl(xs), fl(e)),
+                                  {"eps": float(eps), "xs_hex": [float(v).hex() for v in xs], "out_hex": [float(v).hex() for v in e]}))
     # 7 convergence test
     for i in range(max(10, budget // 6)):
         m = int(rng.integers(1, 80))
